@@ -103,7 +103,7 @@ def check_system(ctx, case, name, A, B, impl_X, what):
             want = x_model
         if not cmp_vec(impl, want, name):
             tags = ['solve', name, what]
-            if name == 'real' and _singular(A) and all(isinstance(v, float) and v > 1e9 and math.isfinite(v) for v, w_ in zip(impl, want)
+            if name in ('real', 'log') and _singular(A) and all(isinstance(v, float) and v > 1e9 and math.isfinite(v) for v, w_ in zip(impl, want)
                                                         if isinstance(w_, float) and w_ == math.inf):
                 # I - A is EXACTLY singular (decided in rational arithmetic) and the implementation returned huge finite values where
                 # the least solution is infinite: the LU fast path of RealSemiring.solve_thunks accepted a meaningless result
